@@ -206,7 +206,9 @@ func (tbls *TBLS) KeyGen(ctx context.Context) ([]byte, error) {
 
 	// We then distribute the polynomial evaluations (shares) to all parties.
 	// Each party 'i' gets P(i).
-	tbls.shareDistribution(ctx, shares)
+	if err := tbls.shareDistribution(ctx, shares); err != nil {
+		return nil, err
+	}
 
 	// Having received all shares, we combine all shares received from all parties by adding them.
 	// Now, the private key of each party 'i' is defined to be:
@@ -217,10 +219,14 @@ func (tbls *TBLS) KeyGen(ctx context.Context) ([]byte, error) {
 	// However, we do not expose this public key just yet.
 	// Instead, we commit to it and send our commitment to everyone,
 	// and wait for commitments from everyone else.
-	tbls.commitPhase(ctx, pk)
+	if err := tbls.commitPhase(ctx, pk); err != nil {
+		return nil, err
+	}
 
 	// Now we de-commit, and wait for everyone else to de-commit thus revealing their public key.
-	tbls.revealPhase(ctx, pk)
+	if err := tbls.revealPhase(ctx, pk); err != nil {
+		return nil, err
+	}
 	// Next, we ensure the commitments we received match the de-commitments
 	if err := tbls.validateCommitments(); err != nil {
 		return nil, err
@@ -332,7 +338,7 @@ func (tbls *TBLS) contextTimedOut(ctx context.Context) bool {
 	}
 }
 
-func (tbls *TBLS) shareDistribution(ctx context.Context, shares Shares) {
+func (tbls *TBLS) shareDistribution(ctx context.Context, shares Shares) error {
 	for i := 0; i < len(tbls.parties); i++ {
 		// My party
 		if i+1 == tbls.id {
@@ -342,17 +348,17 @@ func (tbls *TBLS) shareDistribution(ctx context.Context, shares Shares) {
 		tbls.sendMsg(encodeMsg(shareDistribution, shares[i].Bytes()), false, tbls.parties[i])
 	}
 
-	tbls.waitForShareDistribution(ctx)
+	return tbls.waitForShareDistribution(ctx)
 }
 
-func (tbls *TBLS) revealPhase(ctx context.Context, pk []byte) {
+func (tbls *TBLS) revealPhase(ctx context.Context, pk []byte) error {
 	tbls.Logger.Infof("Broadcasting public key: %s", base64.StdEncoding.EncodeToString(pk))
 	tbls.sendMsg(encodeMsg(revealPK, pk), true, 0)
 
-	tbls.waitForDeCommitmentDistribution(ctx)
+	return tbls.waitForDeCommitmentDistribution(ctx)
 }
 
-func (tbls *TBLS) commitPhase(ctx context.Context, pk []byte) {
+func (tbls *TBLS) commitPhase(ctx context.Context, pk []byte) error {
 	digest := sha256.Sum256(pk)
 	commitment := digest[:]
 
@@ -360,7 +366,7 @@ func (tbls *TBLS) commitPhase(ctx context.Context, pk []byte) {
 
 	tbls.sendMsg(encodeMsg(commitPK, commitment), true, 0)
 
-	tbls.waitForCommitmentDistribution(ctx)
+	return tbls.waitForCommitmentDistribution(ctx)
 }
 
 func (tbls *TBLS) combineShares() []byte {
@@ -378,43 +384,49 @@ func (tbls *TBLS) combineShares() []byte {
 	return pk
 }
 
-func (tbls *TBLS) waitForShareDistribution(ctx context.Context) {
+func (tbls *TBLS) waitForShareDistribution(ctx context.Context) error {
 	tbls.lock.Lock()
 	defer tbls.lock.Unlock()
 
 	for !tbls.contextTimedOut(ctx) {
 		if len(tbls.shares) == len(tbls.parties)-1 {
-			return
+			return nil
 		}
 
 		tbls.signal.Wait()
 	}
+
+	return fmt.Errorf("waitForShareDistribution: %w", ctx.Err())
 }
 
-func (tbls *TBLS) waitForCommitmentDistribution(ctx context.Context) {
+func (tbls *TBLS) waitForCommitmentDistribution(ctx context.Context) error {
 	tbls.lock.Lock()
 	defer tbls.lock.Unlock()
 
 	for !tbls.contextTimedOut(ctx) {
 		if len(tbls.commitments) == len(tbls.parties)-1 {
-			return
+			return nil
 		}
 
 		tbls.signal.Wait()
 	}
+
+	return fmt.Errorf("waitForCommitmentDistribution: %w", ctx.Err())
 }
 
-func (tbls *TBLS) waitForDeCommitmentDistribution(ctx context.Context) {
+func (tbls *TBLS) waitForDeCommitmentDistribution(ctx context.Context) error {
 	tbls.lock.Lock()
 	defer tbls.lock.Unlock()
 
 	for !tbls.contextTimedOut(ctx) {
 		if len(tbls.publicKeysOfParties) == len(tbls.parties) {
-			return
+			return nil
 		}
 
 		tbls.signal.Wait()
 	}
+
+	return fmt.Errorf("waitForDeCommitmentDistribution: %w", ctx.Err())
 }
 
 func encodeMsg(msgType uint8, payload []byte) []byte {
